@@ -305,6 +305,10 @@ func randomLog(c *hx.Ctx, r *hx.Rng, logLen int) {
 		default:
 			cmd = u.Gen(kindsModelled)
 		}
+		if streamsAndPrune(in, cmd) {
+			c.Count("stop:schema-clean-with-streams")
+			break
+		}
 		if !t.step(in, cmd) {
 			break
 		}
@@ -522,4 +526,11 @@ func exhaustive(c *hx.Ctx, depth int) {
 	}
 	dfs(base, 0)
 	c.Count(fmt.Sprintf("exhaustive:depth=%d,alphabet=%d", depth, len(alpha)))
+}
+
+// streamsAndPrune: PruneGroups(shard) may run the schema clean, whose MarkMeasurementDelete is
+// refused for a measurement a stream reads or writes; the model's clean pass does not look at
+// the streams - modelled logs end here (the two-replica and all-kinds runs go on).
+func streamsAndPrune(in *metax.Inst, cmd metax.Cmd) bool {
+	return cmd.Kind == "PruneGroups" && strings.HasPrefix(cmd.Text, "PruneGroups 1 ") && len(in.Data().Streams) > 0
 }
